@@ -9,7 +9,7 @@ RULE = ('(sequential part) random name sequences registered through append, attr
         'unicode/spaces/digits; identifiers for attribute access), checked after every operation against a dictionary model: distinct '
         'positive numbers, never changing, name_for_signal inverse, is_inner_signal true exactly for the ten built-ins, Event(name or number) '
         'reporting the matching pair. (concurrent part) 2-4 real threads register overlapping and disjoint names by all three routes and '
-        'build events by number on a FRESH SignalSource substituted for miros.event.signals, with detsched switching at every bytecode '
+        'build events by number and ask is_inner_signal for built-in names / numbers on a FRESH SignalSource substituted for miros.event.signals, with detsched switching at every bytecode '
         'boundary inside miros/event.py (seeded random / PCT); any exception in a thread, any pair of names sharing a number, any number '
         'that differs between two observations, or an Event whose (signal, signal_name) pair disagrees with the final registry is a '
         'violation. Every twentieth case repeats the concurrent part on REAL threads with the real primitives (vt/osback.py: nothing substituted, switch interval 1 us, random yields at line starts of miros code). ' + sysx.RULE_TEXT % (1, 1) + 'distinct_nontrivial = distinct context-switch sequences with >= 2 threads registering')
@@ -112,7 +112,7 @@ def os_case(ctx, n):
   rng = ctx.rng('os', n)
   nthreads = rng.randint(2, 6)
   pool = ['N%d' % i for i in range(rng.randint(2, 5))]
-  plans = [[(rng.choice(['append', 'attr', 'event', 'event+number']), rng.choice(pool) if rng.random() < 0.8 else 'T%d_%d' % (t, rng.randrange(3)))
+  plans = [[(rng.choice(['append', 'attr', 'event', 'event+number', 'inner']), rng.choice(pool) if rng.random() < 0.8 else 'T%d_%d' % (t, rng.randrange(3)))
             for _ in range(rng.randint(2, 8))] for t in range(nthreads)]
   saved = fresh_registry()
   obs = []
@@ -126,6 +126,12 @@ def os_case(ctx, n):
           obs.append((i, nm, sig[nm], 'append'))
         elif route == 'attr':
           obs.append((i, nm, getattr(sig, nm), 'attr'))
+        elif route == 'inner':
+          b = BUILTINS[(i + len(obs)) % 10]
+          for arg, want in ((b, True), (BUILTINS.index(b) + 1, True)):
+            got = sig.is_inner_signal(arg)
+            if got is not want:
+              obs.append((i, str(arg), None, 'is_inner_signal(%r):%r' % (arg, got)))
         else:
           e = EV.Event(signal=nm)
           obs.append((i, e.signal_name, e.signal, 'event'))
@@ -173,7 +179,7 @@ def scenario(ctx, n):
     plan = []
     for _ in range(rng.randint(1, 2) if small else rng.randint(1, 4)):
       nm = rng.choice(pool) if rng.random() < 0.7 else 'T%d_%d' % (t, rng.randrange(3))
-      plan.append((rng.choice(['append', 'attr', 'event', 'event+number']), nm))
+      plan.append((rng.choice(['append', 'attr', 'event', 'event+number', 'inner']), nm))
     plans.append(plan)
   pol = dict(policy='random', p_switch=rng.choice([0.05, 0.2, 0.5])) if rng.random() < 0.6 else dict(policy='pct', pct_depth=rng.choice([2, 3, 4]), pct_len=400)
   s = ds.Sched(seed=rng.randrange(1 << 30), max_steps=400000, **pol)
@@ -190,6 +196,14 @@ def scenario(ctx, n):
           obs.append((i, nm, sig[nm], 'append'))
         elif route == 'attr':
           obs.append((i, nm, getattr(sig, nm), 'attr'))
+        elif route == 'inner':
+          # the ten built-ins are inner signals, by name and by number, whatever other threads are registering meanwhile
+          b = BUILTINS[(i + len(obs)) % 10]
+          for arg, want in ((b, True), (BUILTINS.index(b) + 1, True), (nm, False)):
+            if arg in sig or not isinstance(arg, str):
+              got = sig.is_inner_signal(arg)
+              if got is not want:
+                obs.append((i, str(arg), None, 'is_inner_signal(%r):%r' % (arg, got)))
         elif route == 'event':
           e = EV.Event(signal=nm)
           obs.append((i, e.signal_name, e.signal, 'event'))
